@@ -8,8 +8,11 @@ CONSTANTS
   Orders <- OrdOne
   FullOrder = FALSE
   Points <- Pts1
-  Feeds <- Fd1
-  Configs <- CfgAll
+  Feeds <- NoFeeds
+  PhaseMaps <- Ph1
+  ReKVals <- NoReK
+  MaxHist = 0
+  Configs <- CfgAllUk2
   Comp <- CompDef
 INVARIANT FreeVsInlinedAgree
 INVARIANT ConfigOnlyChangesFreeSymbols
@@ -19,6 +22,5 @@ INVARIANT ParamsAreTheFreeSymbols
 INVARIANT UntouchedOnlyFeed
 INVARIANT RatePolyMatches
 INVARIANT OTypeOK
-INVARIANT PolyAgreesWithFold
 INVARIANT EmitBuild
 CHECK_DEADLOCK FALSE
